@@ -155,6 +155,15 @@ Definition unchanged_or_shrunk (neg : nat) (a r : list Q) : Prop :=
 
 Ltac split6 := split; [|split; [|split; [|split; [|split]]]].
 
+Lemma fix_one_cons neg i rest arr : fix_one neg (i :: rest) arr =
+  if Nat.eqb i neg || Qle_bool (nth i arr 0) 0 then fix_one neg rest arr
+  else
+    let adj := pymin (- nth neg arr 0) (nth i arr 0) in
+    let arr1 := upd arr neg (Qred (nth neg arr 0 + adj)) in
+    let arr2 := upd arr1 i (Qred (nth i arr1 0 - adj)) in
+    if Qeq_bool (nth neg arr2 0) 0 then arr2 else fix_one neg rest arr2.
+Proof. reflexivity. Qed.
+
 Lemma fix_one_spec neg : forall idxs arr,
   (neg < List.length arr)%nat -> (forall i, In i idxs -> (i < List.length arr)%nat) -> nth neg arr 0 <= 0 ->
   let r := fix_one neg idxs arr in
@@ -162,7 +171,7 @@ Lemma fix_one_spec neg : forall idxs arr,
   unchanged_or_shrunk neg arr r /\
   (nth neg r 0 == 0 \/ forall j, In j idxs -> j <> neg -> nth j r 0 <= 0).
 Proof.
-  induction idxs as [|i rest IH]; intros arr Hneg Hidx Hle; simpl.
+  induction idxs as [|i rest IH]; intros arr Hneg Hidx Hle; [simpl|cbv zeta; rewrite fix_one_cons].
   - split6; try reflexivity; try lra.
     + intros j _. split; intro; lra.
     + right. intros j [].
@@ -183,8 +192,8 @@ Proof.
       { destruct (Qle_bool_spec (nth i arr 0) 0); [discriminate|lra]. }
       assert (Hi : (i < List.length arr)%nat) by (apply Hidx; now left).
       set (adj := pymin (- nth neg arr 0) (nth i arr 0)).
-      set (arr1 := upd arr neg (nth neg arr 0 + adj)).
-      set (arr2 := upd arr1 i (nth i arr1 0 - adj)).
+      set (arr1 := upd arr neg (Qred (nth neg arr 0 + adj))).
+      set (arr2 := upd arr1 i (Qred (nth i arr1 0 - adj))).
       assert (Hadj : 0 <= adj /\ adj <= - nth neg arr 0 /\ adj <= nth i arr 0 /\
                      (adj == - nth neg arr 0 \/ adj == nth i arr 0)).
       { unfold adj. destruct (pymin_spec (- nth neg arr 0) (nth i arr 0)) as [[H ->]|[H ->]].
@@ -194,21 +203,22 @@ Proof.
       assert (L1 : List.length arr1 = List.length arr) by (unfold arr1; apply upd_length).
       assert (L2 : List.length arr2 = List.length arr) by (unfold arr2; rewrite upd_length; exact L1).
       assert (Ni1 : nth i arr1 0 = nth i arr 0) by (unfold arr1; apply nth_upd_other; congruence).
-      assert (Nneg2 : nth neg arr2 0 = nth neg arr 0 + adj).
-      { unfold arr2. rewrite nth_upd_other by congruence. unfold arr1. apply nth_upd_same; exact Hneg. }
-      assert (Ni2 : nth i arr2 0 = nth i arr 0 - adj).
-      { unfold arr2. rewrite nth_upd_same by (rewrite L1; exact Hi). now rewrite Ni1. }
+      assert (Nneg2 : nth neg arr2 0 == nth neg arr 0 + adj).
+      { unfold arr2. rewrite nth_upd_other by congruence. unfold arr1.
+        rewrite nth_upd_same by exact Hneg. apply Qred_correct. }
+      assert (Ni2 : nth i arr2 0 == nth i arr 0 - adj).
+      { unfold arr2. rewrite nth_upd_same by (rewrite L1; exact Hi). rewrite Qred_correct, Ni1. reflexivity. }
       assert (No2 : forall j, j <> neg -> j <> i -> nth j arr2 0 = nth j arr 0).
       { intros j J1 J2. unfold arr2. rewrite nth_upd_other by congruence. unfold arr1.
         apply nth_upd_other; congruence. }
       assert (S2 : qsum arr2 == qsum arr).
-      { unfold arr2. rewrite qsum_upd by (rewrite L1; exact Hi). rewrite Ni1.
-        unfold arr1. rewrite qsum_upd by exact Hneg. ring. }
+      { unfold arr2. rewrite qsum_upd by (rewrite L1; exact Hi). rewrite Qred_correct, Ni1.
+        unfold arr1. rewrite qsum_upd by exact Hneg. rewrite Qred_correct. ring. }
       assert (U2 : unchanged_or_shrunk neg arr arr2).
       { intros j Jn. destruct (Nat.eq_dec j i) as [->|Ji].
         - rewrite Ni2. split; intro; lra.
         - rewrite (No2 j Jn Ji). split; intro; lra. }
-      fold adj. fold arr1. fold arr2.
+      cbv zeta. fold adj. fold arr1. fold arr2.
       destruct (Qeq_bool (nth neg arr2 0) 0) eqn:Ez.
       * apply Qeq_bool_iff in Ez.
         split6; auto; try (rewrite Nneg2; lra); try (left; exact Ez).
